@@ -13,9 +13,13 @@ package main
 // `orig/count/weight/sons/status/father.dist.pos.from.to,.../mutations` separated by spaces.
 // Result of `a`: per input sequence `head/hc/ic/sc/n/status/weight/mutation`.
 //
-// Oracle (on the real code): (1) for distance one, an independent sequential recomputation (full-matrix
-// Levenshtein distance, integer arithmetic for the weights, exact rational test for the ratio); every reported
-// mutation must reproduce the edit; (2) for every setting, equality of everything returned across worker counts
+//	c <workers> <maxError> <p> <q> <head 0|1> <hexseq>/<s>=<n>,...  the same data set through the REAL CLIOBIClean
+//	                                                         (--distance, --ratio, --head, workers): `orig:` + the record
+//
+// Oracle (on the real code): (1) for distance one, and for distance > 1 on plain acgt sequences, an independent
+// sequential recomputation (full-matrix Levenshtein distance, textbook LCS matrix, integer arithmetic for the weights,
+// exact rational test for the ratio); every reported mutation must reproduce the edit; for `a` / `c` every
+// annotation of every record and the --head selection are recomputed from that reference; (2) for every setting, equality of everything returned across worker counts
 // 1..32 and repeated runs; (3) thorough tier: a `-race` build of this harness replays the contention cases and
 // the Go race detector must stay silent.
 
@@ -240,15 +244,71 @@ func c13Lev(a, b []byte) int {
 type c13Ref struct {
 	order   []int   // sorted position -> original index
 	fathers [][]int // sorted position -> fathers (ascending), after the ratio filter
+	dists   [][]int // the distance carried by the edge to fathers[i][k]
 	weight  []int
 	sons    []int
 	status  []string
 }
 
-// c13Reference recomputes, sequentially, the distance-one graph of one sample.
-func c13Reference(seqs [][]byte, counts []int, p, q int) c13Ref {
+// c13ACGT : only a, c, g, t (then the IUPAC matching of the LCS kernel is plain equality)
+func c13ACGT(seqs [][]byte) bool {
+	for _, s := range seqs {
+		for _, b := range s {
+			if b != 'a' && b != 'c' && b != 'g' && b != 't' {
+				return false
+			}
+		}
+	}
+	return true
+}
+
+// c13LCS : textbook full matrix: (LCS length, length of the shortest alignment achieving it), plain equality
+func c13LCS(a, b []byte) (int, int) {
+	type cell struct{ s, l int }
+	better := func(x, y cell) bool { return x.s > y.s || (x.s == y.s && x.l <= y.l) }
+	prev := make([]cell, len(b)+1)
+	for j := range prev {
+		prev[j] = cell{0, j}
+	}
+	for i := 1; i <= len(a); i++ {
+		cur := make([]cell, len(b)+1)
+		cur[0] = cell{0, i}
+		for j := 1; j <= len(b); j++ {
+			d := cell{prev[j-1].s, prev[j-1].l + 1}
+			if a[i-1] == b[j-1] {
+				d.s++
+			}
+			u := cell{prev[j].s, prev[j].l + 1}
+			l := cell{cur[j-1].s, cur[j-1].l + 1}
+			best := d
+			if !better(best, u) {
+				best = u
+			}
+			if !better(best, l) {
+				best = l
+			}
+			cur[j] = best
+		}
+		prev = cur
+	}
+	return prev[len(b)].s, prev[len(b)].l
+}
+
+func c13Pow(b, e int) int {
+	r := 1
+	for ; e > 0; e-- {
+		r *= b
+	}
+	return r
+}
+
+// c13Reference recomputes, sequentially, the graph of one sample: the distance-one edges (more abundant father at
+// Levenshtein distance exactly one), the weights, then (maxErr > 1, sequences over acgt only) for the rows WITHOUT
+// distance-one father the edges to every later row of the stable count order at Levenshtein distance >= 2 whose
+// optimal LCS alignment has at most maxErr differences, then the ratio filter w_son * q^dist <= p^dist * w_father.
+func c13Reference(seqs [][]byte, counts []int, p, q, maxErr int) c13Ref {
 	n := len(seqs)
-	r := c13Ref{order: make([]int, n), fathers: make([][]int, n), weight: make([]int, n), sons: make([]int, n), status: make([]string, n)}
+	r := c13Ref{order: make([]int, n), fathers: make([][]int, n), dists: make([][]int, n), weight: make([]int, n), sons: make([]int, n), status: make([]string, n)}
 	for i := range r.order {
 		r.order[i] = i
 	}
@@ -258,6 +318,7 @@ func c13Reference(seqs [][]byte, counts []int, p, q int) c13Ref {
 		for j := 0; j < n; j++ {
 			if cnt(j) > cnt(i) && c13Lev(seqs[r.order[i]], seqs[r.order[j]]) == 1 {
 				r.fathers[i] = append(r.fathers[i], j)
+				r.dists[i] = append(r.dists[i], 1)
 			}
 		}
 	}
@@ -276,15 +337,37 @@ func c13Reference(seqs [][]byte, counts []int, p, q int) c13Ref {
 			r.weight[f] += (2*r.weight[i]*cnt(f) + swf) / (2 * swf)
 		}
 	}
-	if p < q {
+	if maxErr > 1 {
 		for i := 0; i < n; i++ {
-			var keep []int
-			for _, f := range r.fathers[i] {
-				if r.weight[i]*q <= p*r.weight[f] {
-					keep = append(keep, f)
+			if len(r.fathers[i]) > 0 {
+				continue
+			}
+			for j := i + 1; j < n; j++ {
+				a, b := seqs[r.order[i]], seqs[r.order[j]]
+				if c13Lev(a, b) < 2 {
+					continue
+				}
+				if lcs, lali := c13LCS(a, b); lali-lcs <= maxErr {
+					r.fathers[i] = append(r.fathers[i], j)
+					r.dists[i] = append(r.dists[i], lali-lcs)
 				}
 			}
-			r.fathers[i] = keep
+		}
+	}
+	if p < q {
+		for i := 0; i < n; i++ {
+			var keep, kd []int
+			for k, f := range r.fathers[i] {
+				d := r.dists[i][k]
+				if r.weight[i]*c13Pow(q, d) == c13Pow(p, d)*r.weight[f] {
+					stat(fmt.Sprintf("ratio:exactly-on-the-boundary(d=%d)", d))
+				}
+				if r.weight[i]*c13Pow(q, d) <= c13Pow(p, d)*r.weight[f] {
+					keep = append(keep, f)
+					kd = append(kd, d)
+				}
+			}
+			r.fathers[i], r.dists[i] = keep, kd
 		}
 	}
 	for i := 0; i < n; i++ {
@@ -332,7 +415,7 @@ func c13MutationOK(son, father []byte, pos int, from, to byte) bool {
 }
 
 func c13Oracle(cs c13Case, ns []obiclean.VerifNode) (fails []Fail) {
-	ref := c13Reference(cs.seqs, cs.counts, cs.p, cs.q)
+	ref := c13Reference(cs.seqs, cs.counts, cs.p, cs.q, cs.maxErr)
 	if len(ns) != len(cs.seqs) {
 		return []Fail{{"graph.nodes", fmt.Sprintf("%d nodes returned for %d sequences", len(ns), len(cs.seqs))}}
 	}
@@ -356,10 +439,20 @@ func c13Oracle(cs c13Case, ns []obiclean.VerifNode) (fails []Fail) {
 				add("graph.edge", fmt.Sprintf("node %d: father index %d out of range", i, e.Father))
 				continue
 			}
-			if e.Dist != 1 {
-				add("graph.edge", fmt.Sprintf("node %d -> %d: distance %d reported in a distance-one graph", i, e.Father, e.Dist))
+			wantD := -1
+			for k, f := range ref.fathers[i] {
+				if f == e.Father {
+					wantD = ref.dists[i][k]
+				}
 			}
-			if !c13MutationOK(cs.seqs[n.Orig], cs.seqs[ns[e.Father].Orig], e.Pos, e.From, e.To) {
+			if wantD >= 0 && e.Dist != wantD {
+				add("graph.edge", fmt.Sprintf("node %d -> %d: distance %d reported, expected %d", i, e.Father, e.Dist, wantD))
+			}
+			if e.Dist > 1 {
+				if e.Pos != -1 || e.From != '-' || e.To != '-' {
+					add("graph.mutation", fmt.Sprintf("node %d -> %d: distance %d edge carries (%c)->(%c)@%d", i, e.Father, e.Dist, e.From, e.To, e.Pos+1))
+				}
+			} else if !c13MutationOK(cs.seqs[n.Orig], cs.seqs[ns[e.Father].Orig], e.Pos, e.From, e.To) {
 				add("graph.mutation", fmt.Sprintf("node %d -> %d: (%c)->(%c)@%d does not turn %q into %q", i, e.Father, e.From, e.To, e.Pos+1,
 					cs.seqs[ns[e.Father].Orig], cs.seqs[n.Orig]))
 			}
@@ -373,8 +466,8 @@ func c13Oracle(cs c13Case, ns []obiclean.VerifNode) (fails []Fail) {
 		}
 		sort.Ints(fs)
 		if fmt.Sprint(fs) != fmt.Sprint(ref.fathers[i]) {
-			add("graph.edge", fmt.Sprintf("node %d (input %d): fathers %v, expected %v (more abundant and at edit distance exactly one, ratio %d/%d)",
-				i, n.Orig, fs, ref.fathers[i], cs.p, cs.q))
+			add("graph.edge", fmt.Sprintf("node %d (input %d): fathers %v, expected %v (distance-one fathers: more abundant and at edit distance exactly one; distance %d, ratio %d/%d)",
+				i, n.Orig, fs, ref.fathers[i], cs.maxErr, cs.p, cs.q))
 		}
 		if n.SonCount != ref.sons[i] {
 			add("graph.soncount", fmt.Sprintf("node %d (input %d): SonCount %d, expected %d", i, n.Orig, n.SonCount, ref.sons[i]))
@@ -384,6 +477,150 @@ func c13Oracle(cs c13Case, ns []obiclean.VerifNode) (fails []Fail) {
 		}
 		if n.Status != ref.status[i] || n.AStatus != ref.status[i] {
 			add("graph.status", fmt.Sprintf("node %d (input %d): status %s (annotation %s), expected %s", i, n.Orig, n.Status, n.AStatus, ref.status[i]))
+		}
+	}
+	return fails
+}
+
+// c13AnnotOracle (ops a, c): every obiclean_* annotation of every record written, recomputed from the independent
+// per-sample reference: obiclean_status / obiclean_weight per sample, the key set of obiclean_mutation and that each
+// value reproduces the edit (or is the `(-)->(-)@0` of a distance > 1 edge), obiclean_head, the three counters and
+// obiclean_samplecount; with --head exactly the records with obiclean_head, in input order.
+func c13AnnotOracle(cs c13Case, res string) (fails []Fail) {
+	add := func(sig, text string) {
+		for _, f := range fails {
+			if f.Sig == sig {
+				return
+			}
+		}
+		fails = append(fails, Fail{sig, text})
+	}
+	n := len(cs.seqs)
+	names := map[string]bool{}
+	for _, m := range cs.smaps {
+		for k := range m {
+			names[k] = true
+		}
+	}
+	var sorted []string
+	for k := range names {
+		sorted = append(sorted, k)
+	}
+	sort.Strings(sorted)
+	status := make([][]string, n)
+	weight := make([][]string, n)
+	muts := make([]map[string]int, n) // father record -> distance of the edge
+	for i := range muts {
+		muts[i] = map[string]int{}
+	}
+	nh, ni, ns := make([]int, n), make([]int, n), make([]int, n)
+	for _, name := range sorted {
+		var idx []int
+		var seqs [][]byte
+		var counts []int
+		for i, m := range cs.smaps {
+			if c, ok := m[name]; ok {
+				idx = append(idx, i)
+				seqs = append(seqs, cs.seqs[i])
+				counts = append(counts, c)
+			}
+		}
+		ref := c13Reference(seqs, counts, cs.p, cs.q, cs.maxErr)
+		for pos, o := range ref.order {
+			rec := idx[o]
+			status[rec] = append(status[rec], name+"="+ref.status[pos])
+			weight[rec] = append(weight[rec], fmt.Sprintf("%s=%d", name, ref.weight[pos]))
+			switch ref.status[pos] {
+			case "h":
+				nh[rec]++
+			case "i":
+				ni[rec]++
+			default:
+				ns[rec]++
+			}
+			for k, f := range ref.fathers[pos] {
+				muts[rec][fmt.Sprintf("s%d", idx[ref.order[f]])] = ref.dists[pos][k]
+			}
+		}
+	}
+	var want []int
+	for i := 0; i < n; i++ {
+		if cs.op == "a" || !cs.onlyHead || nh[i]+ns[i] > 0 {
+			want = append(want, i)
+		}
+	}
+	items := strings.Fields(res)
+	if res == "-" {
+		items = nil
+	}
+	if len(items) != len(want) {
+		add("annot.records", fmt.Sprintf("%d records written, expected %d (head=%v)", len(items), len(want), cs.onlyHead))
+		return fails
+	}
+	for k, it := range items {
+		rec := want[k]
+		if cs.op == "c" {
+			c := strings.IndexByte(it, ':')
+			if c < 0 || it[:c] != strconv.Itoa(rec) {
+				add("annot.records", fmt.Sprintf("record %d of the output is %q, expected input record %d (input order, head=%v)", k, it, rec, cs.onlyHead))
+				continue
+			}
+			it = it[c+1:]
+		}
+		f := strings.Split(it, "/")
+		if len(f) != 8 {
+			add("annot.format", "unexpected record "+it)
+			continue
+		}
+		head := "0"
+		if nh[rec]+ns[rec] > 0 {
+			head = "1"
+		}
+		if f[0] != head {
+			add("annot.head", fmt.Sprintf("record %d: obiclean_head %s, expected %s", rec, f[0], head))
+		}
+		if exp := fmt.Sprintf("%d/%d/%d/%d", nh[rec], ni[rec], ns[rec], nh[rec]+ni[rec]+ns[rec]); strings.Join(f[1:5], "/") != exp {
+			add("annot.counts", fmt.Sprintf("record %d: head/internal/singleton/sample counts %s, expected %s", rec, strings.Join(f[1:5], "/"), exp))
+		}
+		if exp := strings.Join(status[rec], ","); f[5] != exp {
+			add("annot.status", fmt.Sprintf("record %d: obiclean_status %s, expected %s", rec, f[5], exp))
+		}
+		if exp := strings.Join(weight[rec], ","); f[6] != exp {
+			add("annot.weight", fmt.Sprintf("record %d: obiclean_weight %s, expected %s", rec, f[6], exp))
+		}
+		got := map[string]string{}
+		if f[7] != "" {
+			for _, kv := range strings.Split(f[7], ",") {
+				e := strings.IndexByte(kv, '=')
+				if e < 0 {
+					add("annot.format", "unexpected mutation "+kv)
+					continue
+				}
+				got[kv[:e]] = kv[e+1:]
+			}
+		}
+		if len(got) != len(muts[rec]) {
+			add("annot.mutation", fmt.Sprintf("record %d: obiclean_mutation has %d keys %v, expected %d %v", rec, len(got), got, len(muts[rec]), muts[rec]))
+		}
+		for key, d := range muts[rec] {
+			v, ok := got[key]
+			if !ok {
+				add("annot.mutation", fmt.Sprintf("record %d: obiclean_mutation lacks the father %s", rec, key))
+				continue
+			}
+			if d > 1 {
+				if v != "(-)->(-)@0" {
+					add("annot.mutation", fmt.Sprintf("record %d: mutation %s for the distance %d father %s", rec, v, d, key))
+				}
+				continue
+			}
+			var from, to byte
+			var pos int
+			father, _ := strconv.Atoi(key[1:])
+			if _, err := fmt.Sscanf(v, "(%c)->(%c)@%d", &from, &to, &pos); err != nil ||
+				!c13MutationOK(cs.seqs[rec], cs.seqs[father], pos-1, from, to) {
+				add("annot.mutation", fmt.Sprintf("record %d: mutation %s does not turn father %s %q into %q", rec, v, key, cs.seqs[father], cs.seqs[rec]))
+			}
 		}
 	}
 	return fails
@@ -401,9 +638,10 @@ func c13WorkerPlan(workers int) (ws []int, repeats int) {
 		for w := 1; w <= 32; w++ {
 			ws = append(ws, w)
 		}
-		return ws, 12
+		ws = append(ws, 40, 48, 64)
+		return ws, 14
 	}
-	return []int{1, 2, 3, 4, 6, 8, 12, 16, 24, 32}, 2
+	return []int{1, 2, 3, 4, 5, 6, 8, 12, 16, 24, 32, 64}, 3
 }
 
 // c13Fact (op `fact`): the structural fact the interleaving model is instantiated with (DESIGN T3): in the two
@@ -521,8 +759,17 @@ func (c13) Exec(c string) (string, []Fail) {
 	var fails []Fail
 	res := cs.run(cs.workers)
 
-	// (1) exactness, distance one
-	if cs.op == "g" && cs.maxErr <= 1 && res != "panic" && res != "fatal" && res != "hang" {
+	// (1) exactness: distance one, and distance > 1 on plain acgt sequences
+	exact := cs.maxErr <= 1 || c13ACGT(cs.seqs)
+	if exact {
+		stat("oracle:exact")
+	} else {
+		stat("oracle:determinism-only(iupac,d>1)")
+	}
+	if cs.op != "g" && exact && res != "panic" && res != "fatal" && res != "hang" {
+		fails = append(fails, c13AnnotOracle(cs, res)...)
+	}
+	if cs.op == "g" && exact && res != "panic" && res != "fatal" && res != "hang" {
 		seqs := make([][]byte, len(cs.seqs))
 		for i, s := range cs.seqs {
 			seqs[i] = append([]byte{}, s...)
@@ -747,6 +994,178 @@ func c13Contention(rng *rand.Rand, n int) []c13Item {
 	return items
 }
 
+// c13Subst : s with the symbol at position p replaced by another one of acgt
+func c13Subst(rng *rand.Rand, s []byte, p int) []byte {
+	t := append([]byte{}, s...)
+	for {
+		c := c13Alpha[rng.Intn(4)]
+		if c != t[p] {
+			t[p] = c
+			return t
+		}
+	}
+}
+
+// c13Boundary : a hub and k variants whose weight ratio to the hub is EXACTLY (p/q)^d when delta = 0 (the edge is
+// kept: `<=`), just above / below it for delta = -1 / +1 on the hub count. d = 1: k sons at one substitution, count
+// c = p*m each, hub count m*(q - k*p) (+ delta): weights c and m*q. d > 1: one son at d substitutions, c = p^d * m,
+// hub q^d * m (the second phase moves no weight). ok = false when the ratio has no such configuration.
+func c13Boundary(rng *rand.Rand, p, q, d, delta int) (items []c13Item, ok bool) {
+	if p <= 0 || p >= q {
+		return nil, false
+	}
+	length := 8 + rng.Intn(14)
+	hub := make([]byte, length)
+	for i := range hub {
+		hub[i] = c13Alpha[rng.Intn(4)] // no forced runs: d substitutions stay d differences
+	}
+	m := 1 + rng.Intn(4)
+	if d <= 1 {
+		kmax := (q - p - 1) / p // k*p + p < q
+		if kmax < 1 {
+			return nil, false
+		}
+		if kmax > 5 {
+			kmax = 5
+		}
+		k := 1 + rng.Intn(kmax)
+		c := p * m
+		hc := m*(q-k*p) + delta
+		if hc <= c {
+			return nil, false
+		}
+		items = append(items, c13Item{hub, hc})
+		for _, pos := range rng.Perm(length)[:k] {
+			items = append(items, c13Item{c13Subst(rng, hub, pos), c})
+		}
+	} else {
+		c, hc := c13Pow(p, d)*m, c13Pow(q, d)*m+delta
+		if hc <= c || hc > 1<<28 {
+			return nil, false
+		}
+		son := hub
+		for _, pos := range rng.Perm(length / 2)[:d] {
+			son = c13Subst(rng, son, 2*pos) // never two adjacent positions
+		}
+		items = append(items, c13Item{hub, hc}, c13Item{son, c})
+	}
+	rng.Shuffle(len(items), func(i, j int) { items[i], items[j] = items[j], items[i] })
+	return items, true
+}
+
+// c13Ends : a hub and its variants by one (d > 1: also two) indels / substitutions at the FIRST and LAST positions
+func c13Ends(rng *rand.Rand, d int) []c13Item {
+	n := 5 + rng.Intn(16)
+	hub := c13RandSeq(rng, n)
+	x := func() byte { return c13Alpha[rng.Intn(4)] }
+	cat := func(parts ...[]byte) []byte {
+		var t []byte
+		for _, p := range parts {
+			t = append(t, p...)
+		}
+		return t
+	}
+	vs := [][]byte{hub[1:], hub[:n-1], cat([]byte{x()}, hub), cat(hub, []byte{x()}), c13Subst(rng, hub, 0), c13Subst(rng, hub, n-1)}
+	if d > 1 {
+		vs = append(vs, hub[2:], hub[:n-2], hub[1:n-1], cat([]byte{x(), x()}, hub), cat(hub, []byte{x(), x()}),
+			cat([]byte{x()}, hub, []byte{x()}), cat([]byte{x()}, hub[:n-1]), cat(hub[1:], []byte{x()}),
+			c13Subst(rng, c13Subst(rng, hub, 0), n-1), c13Subst(rng, hub[1:], n-2))
+	}
+	hc := 5 + rng.Intn(200)
+	ties := rng.Intn(3) == 0
+	items := []c13Item{{hub, hc}}
+	seen := map[string]bool{string(hub): true}
+	for _, v := range vs {
+		if seen[string(v)] && rng.Intn(4) != 0 {
+			continue
+		}
+		seen[string(v)] = true
+		c := 1 + rng.Intn(hc)
+		if ties {
+			c = 1 + rng.Intn(2)
+		}
+		items = append(items, c13Item{append([]byte{}, v...), c})
+	}
+	rng.Shuffle(len(items), func(i, j int) { items[i], items[j] = items[j], items[i] })
+	return items
+}
+
+// c13Ties : every count equal (or two values only): no distance-one edge between equals, but the second phase
+// (--distance > 1) does not look at the counts, so its edges follow the STABLE order of the sort
+func c13Ties(rng *rand.Rand, n int) []c13Item {
+	items := c13Sample(rng, n, false)
+	c := 1 + rng.Intn(3)
+	two := rng.Intn(3) == 0
+	for i := range items {
+		items[i].count = c
+		if two && rng.Intn(3) == 0 {
+			items[i].count = c + 1
+		}
+	}
+	return items
+}
+
+// c13Multi : the items spread over nsamp samples sharing sequences (op `a`, or `c` = the real CLIOBIClean with
+// --head = head): in the first sample an item keeps its count, elsewhere a small one (ties) or the same
+func c13Multi(rng *rand.Rand, op string, w, d int, r [2]int, head bool, items []c13Item, nsamp int) string {
+	var sb strings.Builder
+	fmt.Fprintf(&sb, "%s %d %d %d %d", op, w, d, r[0], r[1])
+	if op == "c" {
+		h := 0
+		if head {
+			h = 1
+		}
+		fmt.Fprintf(&sb, " %d", h)
+	}
+	mode := rng.Intn(3)
+	for _, it := range items {
+		fmt.Fprintf(&sb, " %s/", hx(it.seq))
+		first := true
+		for s := 0; s < nsamp; s++ {
+			if rng.Intn(3) != 0 || (s == nsamp-1 && first) {
+				if !first {
+					sb.WriteByte(',')
+				}
+				c := it.count
+				if s > 0 {
+					switch mode {
+					case 0:
+						c = 1 + rng.Intn(30)
+					case 1:
+						c = 1 + rng.Intn(3)
+					}
+				}
+				fmt.Fprintf(&sb, "%c=%d", 'a'+s, c)
+				first = false
+			}
+		}
+	}
+	return sb.String()
+}
+
+// c13BoundaryMulti : the three hub counts (boundary - 1, boundary, boundary + 1) as three samples of one data set
+func c13BoundaryMulti(rng *rand.Rand, w, p, q, d int, head bool) (string, bool) {
+	seed := rng.Int63()
+	var sets [3][]c13Item
+	for k, delta := range []int{-1, 0, 1} {
+		it, ok := c13Boundary(rand.New(rand.NewSource(seed)), p, q, d, delta)
+		if !ok {
+			return "", false
+		}
+		sets[k] = it
+	}
+	var sb strings.Builder
+	h := 0
+	if head {
+		h = 1
+	}
+	fmt.Fprintf(&sb, "c %d %d %d %d %d", w, d, p, q, h)
+	for i := range sets[0] {
+		fmt.Fprintf(&sb, " %s/a=%d,b=%d,c=%d", hx(sets[0][i].seq), sets[0][i].count, sets[1][i].count, sets[2][i].count)
+	}
+	return sb.String(), true
+}
+
 var c13Ratios = [][2]int{{1, 1}, {1, 1}, {1, 2}, {1, 10}, {5, 100}, {1, 4}, {1, 3}, {2, 3}, {1, 1000}, {0, 1}, {2, 1}, {99, 100}}
 var c13Dyadic = [][2]int{{1, 1}, {1, 2}, {1, 4}, {3, 4}, {1, 16}, {1, 64}}
 
@@ -788,6 +1207,24 @@ func (c13) Gen(rng *rand.Rand, tier string, emit func(string)) {
 		"a 4 1 1 1 61636774/a=5,b=1 61636761/a=1,b=5 61636361/b=2",
 		"a 4 1 1 2 61636774/a=5 61636761/a=1,c=1 63/c=7",
 		"a 2 2 1 1 6163677461/a=9,b=1 6163676161/a=3,b=1 6163636361/a=1,b=1",
+		"g 4 1 1 3 2:61636774 1:61636761",                                            // ratio boundary: 1/(2+1) = 1/3 exactly: kept (<=)
+		"g 4 1 1 3 3:61636774 1:61636761",                                            // 1/4 < 1/3: kept
+		"g 4 1 2 7 3:61636774 1:61636761",                                            // 1/4 <= 2/7: kept
+		"g 4 1 1 4 2:61636774 1:61636761",                                            // 1/3 > 1/4: removed, the hub becomes a singleton
+		"g 4 2 1 2 4:6163677461 1:6167677761",                                        // distance 2, 1/4 = (1/2)^2 exactly: kept
+		"g 4 2 1 2 3:6163677461 1:6167677761",                                        // 1/3 > 1/4: removed
+		"g 4 3 3 4 64:616367746163 27:636367676167",                                  // distance 3, 27/64 = (3/4)^3 exactly
+		"g 4 3 3 4 63:616367746163 27:636367676167",                                  // just above
+		"g 4 2 1 1 1:6163677461 1:6167677761 1:6163677761",                           // all counts equal, distance 2: edges follow the input order
+		"g 4 2 1 1 1:6163677761 1:6167677761 1:6163677461",                           // same sequences, other input order
+		"g 4 1 1 1 5:6163677461 1:63677461 1:61636774 1:746163677461 1:616367746174", // indels at the first / last position
+		"g 4 2 1 1 5:6163677461 1:677461 1:616367 1:636774 1:74746163677461",         // two indels at the ends
+		"c 4 1 1 1 1 61636774/a=5,b=1 61636761/a=1,b=5 61636361/b=2",                 // --head through the real CLIOBIClean
+		"c 4 1 1 1 0 61636774/a=5,b=1 61636761/a=1,b=5 61636361/b=2",
+		"c 3 2 1 2 1 6163677461/a=9,b=1 6163676161/a=3,b=1 6163636361/a=1,b=1",
+		"c 2 1 1 1 1 61636774/a=5 61636761/a=1",
+		"c 2 1 0 1 1 61636774/a=5 61636761/a=1", // ratio 0: both singletons, both written
+		"c 2 1 1 1 1",
 	} {
 		emit(c)
 	}
@@ -852,7 +1289,72 @@ func (c13) Gen(rng *rand.Rand, tier string, emit func(string)) {
 		}
 		emit(c13Line("g", workers(), d, r, items))
 	}
+	// deepening round: ratio boundaries, ends, ties, --distance 2 / 3, data sets of several samples, the real CLI
+	nb, ne, nt, nm := 60, 40, 40, 80
+	if tier == "thorough" {
+		nb, ne, nt, nm = 60, 40, 40, 100
+	}
+	pqs := [][2]int{{1, 3}, {1, 4}, {1, 10}, {5, 100}, {2, 7}, {1, 1000}, {3, 10}}
+	for i := 0; i < nb; i++ {
+		d := 1 + rng.Intn(3)
+		r := pqs[rng.Intn(len(pqs))]
+		if d > 1 {
+			r = [][2]int{{1, 2}, {1, 4}, {3, 4}, {1, 16}}[rng.Intn(4)]
+		}
+		if rng.Intn(3) == 0 {
+			if l, ok := c13BoundaryMulti(rng, workers(), r[0], r[1], d, rng.Intn(2) == 0); ok {
+				stat("gen:boundary-multi")
+				emit(l)
+			}
+			continue
+		}
+		delta := rng.Intn(3) - 1
+		if items, ok := c13Boundary(rng, r[0], r[1], d, delta); ok {
+			stat(fmt.Sprintf("gen:boundary%+d", delta))
+			emit(c13Line("g", workers(), d, r, items))
+		}
+	}
+	for i := 0; i < ne; i++ {
+		d := 1 + rng.Intn(3)
+		r := c13Dyadic[rng.Intn(len(c13Dyadic))]
+		if d == 1 {
+			r = c13Ratios[rng.Intn(len(c13Ratios))]
+		}
+		stat("gen:ends")
+		if rng.Intn(4) == 0 {
+			emit(c13Multi(rng, "c", workers(), d, r, rng.Intn(2) == 0, c13Ends(rng, d), 2+rng.Intn(2)))
+		} else {
+			emit(c13Line("g", workers(), d, r, c13Ends(rng, d)))
+		}
+	}
+	for i := 0; i < nt; i++ {
+		d := 1 + rng.Intn(3)
+		r := c13Dyadic[rng.Intn(len(c13Dyadic))]
+		n := 3 + rng.Intn(14)
+		if d == 1 {
+			n = 3 + rng.Intn(maxN)
+		}
+		stat("gen:ties")
+		emit(c13Line("g", workers(), d, r, c13Ties(rng, n)))
+	}
+	for i := 0; i < nm; i++ {
+		d := 1
+		r := c13Ratios[rng.Intn(len(c13Ratios))]
+		n := 2 + rng.Intn(maxN)
+		if rng.Intn(3) == 0 {
+			d = 2 + rng.Intn(2)
+			r = c13Dyadic[rng.Intn(len(c13Dyadic))]
+			n = 2 + rng.Intn(14)
+		}
+		op := "c"
+		if rng.Intn(4) == 0 {
+			op = "a"
+		}
+		stat("gen:multi-" + op)
+		emit(c13Multi(rng, op, workers(), d, r, rng.Intn(2) == 0, c13Sample(rng, n, d > 1 && rng.Intn(2) == 0), 2+rng.Intn(4)))
+	}
 	if tier == "thorough" && c13FirstSeed() {
+		emit("race c 6 2 1 2 1 6163677461/a=9,b=1 6163676161/a=3,b=1 6163636361/a=1,b=1 6163636363/a=1,b=4")
 		emit("race " + c13Line("g", 16, 1, [2]int{1, 1}, star))
 		emit("race " + c13Line("g", 8, 2, [2]int{1, 2}, c13Sample(rand.New(rand.NewSource(14)), 14, true)))
 		emit("race a 4 1 1 1 61636774/a=5,b=1 61636761/a=1,b=5 61636361/b=2")
